@@ -9,7 +9,7 @@ from ..common import exc_name, generic_replay
 RULE = ('the full finite grid: backend name in {absent, "fk", "fk/ALSA", ""} x api keyword in {absent, "X", ""} x MIDO_BACKEND in '
         '{unset, "fk", "fk/JACK", ""} x each MIDO_DEFAULT_* in {unset, set, empty} x use_environ x module with/without IOPort and '
         'get_devices x the 6 entry points x port name {absent, given} x call-level api {unset, None, "Y"}, each followed by a '
-        'second call (lazy import); plus mido.set_backend rebinding. Exhaustive; distinct by configuration; all non-trivial')
+        'second call (lazy import); plus mido.set_backend rebinding; plus sampled configurations with the user module under other names (among them the names of the modules mido ships) and with bystander attributes (get_api_names, DEFAULT_API, ...) on the module. Exhaustive grid; distinct by configuration; all non-trivial')
 
 FUNCS = ['open_input', 'open_output', 'open_ioport', 'get_input_names', 'get_output_names', 'get_ioport_names']
 # 'e' is listed the way portmidi and pygame list devices: one entry per direction under the same name
@@ -21,8 +21,23 @@ def tok(s):
     return '-' if s is None else ('@' if s == '' else s)
 
 
-def make_module(name, has_io, has_gd, log):
+MODNAMES = ['amidi', 'pygame', 'portmidi', 'rtmidi', 'rtmidi_python', 'mido', 'backends', 'my.pkg.midi', 'FK', 'fk2', 'mido.backends.fk']
+EXTRAS = ['api_names', 'api_names_all', 'default_api', 'version']
+
+
+def make_module(name, has_io, has_gd, log, extras=()):
     m = types.ModuleType(name)
+    # bystander attributes that real backend modules have: the property gives them no say
+    if 'api_names' in extras:
+        m.get_api_names = lambda: ['UNIX_JACK', 'LINUX_ALSA']
+    if 'api_names_all' in extras:
+        m.get_api_names = lambda: ['X', 'Y', 'ALSA', 'JACK', 'PULSE']
+    if 'default_api' in extras:
+        m.DEFAULT_API = 'DFLT'
+        m.api = 'MODAPI'
+    if 'version' in extras:
+        m.__version__ = '0'
+        m.get_default_api = lambda: 'DFLT'
 
     def mk(cls):
         class P:
@@ -56,10 +71,14 @@ def impl_config(cfg):
     log = []
     saved_env = {k: os.environ.get(k) for k in ('MIDO_BACKEND', 'MIDO_DEFAULT_INPUT', 'MIDO_DEFAULT_OUTPUT', 'MIDO_DEFAULT_IOPORT')}
     real_import = importlib.import_module
-    fake = make_module('fk', cfg['hasio'], cfg['hasgd'], log)
+    modname = cfg.get('modname', 'fk')
+    fake = make_module(modname, cfg['hasio'], cfg['hasgd'], log, cfg.get('extras', ()))
+
+    def sub(v):
+        return v if v is None else v.replace('fk', modname, 1) if v.split('/')[0] == 'fk' else v
 
     def rec_import(name, package=None):
-        if name == 'fk':
+        if name == modname and not package:
             log.append('import:fk')
             return fake
         if name == '':
@@ -68,7 +87,7 @@ def impl_config(cfg):
         log.append('import:' + name)
         raise ModuleNotFoundError(name)
     try:
-        for k, v in (('MIDO_BACKEND', cfg['MB']), ('MIDO_DEFAULT_INPUT', cfg['DI']), ('MIDO_DEFAULT_OUTPUT', cfg['DO']),
+        for k, v in (('MIDO_BACKEND', sub(cfg['MB'])), ('MIDO_DEFAULT_INPUT', cfg['DI']), ('MIDO_DEFAULT_OUTPUT', cfg['DO']),
                      ('MIDO_DEFAULT_IOPORT', cfg['DIO'])):
             if v is None:
                 os.environ.pop(k, None)
@@ -78,8 +97,8 @@ def impl_config(cfg):
         kw = {}
         if cfg['api'] is not None:
             kw['api'] = cfg['api']
-        b = Backend(cfg['name'], use_environ=cfg['use'], **kw)
-        parts = ['backend %s %s' % (tok(b.name), tok(b.api))]
+        b = Backend(sub(cfg['name']), use_environ=cfg['use'], **kw)
+        parts = ['backend %s %s' % (tok('fk' if b.name == modname else b.name), tok(b.api))]
         fail = None
         if log:
             fail = 'creating the Backend (load=False) already imported or called something: %r' % log
@@ -251,10 +270,37 @@ def check_set_backend():
         mido.backend = saved_backend
 
 
+def variants(ck, cfgs):
+    """The same configurations with the user's module under other names (also names of modules mido ships) and with
+    bystander attributes on the module: the outcome is the one of the plain fake module."""
+    import random
+    rng = random.Random(ck.seed)
+    pool = [c for c in cfgs if 'fk' in (c['name'] or '', c['MB'] or '') or (c['name'] or '').startswith('fk') or (c['MB'] or '').startswith('fk')]
+    picks = []
+    for mn in MODNAMES:
+        picks += [(mn, (), c) for c in rng.sample(pool, 12 if ck.tier == 'quick' else 120)]
+    for ex in EXTRAS + ['api_names default_api version']:
+        picks += [('fk', tuple(ex.split()), c) for c in rng.sample(pool, 40 if ck.tier == 'quick' else 400)]
+        picks += [('rtmidi', tuple(ex.split()), c) for c in rng.sample(pool, 6 if ck.tier == 'quick' else 60)]
+    for mn, ex, c in picks:
+        base, _ = impl_config(c)
+        c2 = dict(c, modname=mn, extras=ex)
+        line, fail = impl_config(c2)
+        ck.evaluations += 1
+        ck.count('variant_module')
+        if not fail and line != base:
+            fail = (f'with the backend module named {mn!r}' + (f' and bystander attributes {ex} on it' if ex else '') +
+                    f' the outcome is {line!r}; a module of any other name gives {base!r}')
+        fail = fail or oracle_config(c, line)
+        if fail:
+            ck.oracle_fail({'cfg': repr(c2)}, fail)
+
+
 def run(ck):
     ck.prepare_lean()
     ck.run_corpus(oracle)
     cfgs = gen()
+    variants(ck, cfgs)
     reqs, impl = [], []
     for cfg in cfgs:
         line, fail = impl_config(cfg)
@@ -283,6 +329,10 @@ def oracle(case):
         return check_set_backend()
     cfg = eval(case['cfg'])
     line, fail = impl_config(cfg)
+    if 'modname' in cfg and not fail:
+        base, _ = impl_config({k: v for k, v in cfg.items() if k not in ('modname', 'extras')})
+        if base != line:
+            return f'module named {cfg["modname"]!r} with attributes {cfg.get("extras")}: outcome {line!r}, any other module gives {base!r}'
     return fail or oracle_config(cfg, line)
 
 
